@@ -661,7 +661,7 @@ fn stall_hand(r: &mut Report, cap: usize, t: Duration, kind: BlockKind) {
     r.nontrivial(&("stall-hand", cap, kind));
 }
 
-#[cfg(not(miri))]
+#[cfg_attr(miri, allow(dead_code))]
 mod threads {
     use super::*;
     use std::{
@@ -951,7 +951,7 @@ mod threads {
 
     pub fn conc_case(r: &mut Report, seed: u64, i: u64, cap: usize, ops_per: u64) {
         let mut g = Rng::stream(seed, &[9, 5, i]);
-        let n_senders = g.range(2, 8) as usize;
+        let n_senders = if cfg!(miri) { 2 } else { g.range(2, 8) as usize };
         let rk = *g.pick(&RecvKind::all());
         let stall_phases = g.range(1, 3);
         let case = json!({"section": "conc", "seed": seed, "case": i, "capacity": cap, "senders": n_senders,
@@ -976,7 +976,8 @@ mod threads {
                     if snap.pending_len == cap {
                         shared.samples_at_cap.fetch_add(1, Ordering::Relaxed);
                     }
-                    let q = *metrics(&ms).get("queue_length").unwrap_or(&0);
+                    // (the metric sampler is very slow to interpret: under Miri the sampler thread reads the snapshot only)
+                    let q = if cfg!(miri) { 0 } else { *metrics(&ms).get("queue_length").unwrap_or(&0) };
                     if snap.pending_len > cap || q as usize > cap {
                         let mut v = shared.viols.lock().unwrap();
                         if v.len() < 8 {
@@ -1273,6 +1274,21 @@ fn main() {
             let ops_per = if args.thorough() { 1_500 } else { 400 };
             for i in 0..n {
                 let cap = caps[(i % caps.len() as u64) as usize];
+                threads::conc_case(&mut r, seed, i, cap, ops_per);
+            }
+        }
+        emit_batcher::verif::set_delay_divisor(1);
+    }
+
+    #[cfg(miri)]
+    {
+        // a tiny multi-threaded run: Miri's scheduler picks the interleaving and watches for data races
+        emit_batcher::verif::set_delay_divisor(1000);
+        if want("conc") {
+            let n = args.get_u64("miri-conc", 1);
+            let ops_per = args.get_u64("miri-conc-ops", 6);
+            for i in 0..n {
+                let cap = caps[((i + seed) % caps.len() as u64) as usize];
                 threads::conc_case(&mut r, seed, i, cap, ops_per);
             }
         }
